@@ -514,6 +514,9 @@ func checkRead(it *iavl.ImmutableTree, ver int64, m *verModel, op ROp, th int, v
 			return
 		}
 		root := m.root.Hash
+		if len(op.K) == 0 {
+			return // ics23 cannot verify empty keys
+		}
 		if present {
 			if len(want) > 0 && !ics23.VerifyMembership(ics23.IavlSpec, root, p, op.K, want) {
 				viol("reader.proof", "reader %d: version %d membership proof of %q does not verify against the reference root", th, ver, op.K)
@@ -526,8 +529,8 @@ func checkRead(it *iavl.ImmutableTree, ver int64, m *verModel, op ROp, th int, v
 				return
 			}
 			for _, nb := range []*ics23.ExistenceProof{ne.Left, ne.Right} {
-				if nb != nil && len(nb.Value) == 0 {
-					ok = false // ics23 cannot verify empty values
+				if nb != nil && (len(nb.Value) == 0 || len(nb.Key) == 0) {
+					ok = false // ics23 cannot verify empty values / keys
 				}
 			}
 			if ok && !ics23.VerifyNonMembership(ics23.IavlSpec, root, p, op.K) {
